@@ -1,4 +1,4 @@
-(* model side of the C08 "html" correspondence: the H lines of harness/outopt.cpp
+(* model side of the C08 "html" correspondence: the H and HN lines of harness/outopt.cpp (HN = a prefix resolver is set)
      H <id> <enc> <indent:-1> <escapeURLs:0|1> <omitMeta:0|1> <dtsys:-|u:..> <dtpub:-|u:..> <event>*
    Output: "<id> ok <u:units> <guard|noguard> <parse>"  (units = UTF-16 code units the serializer hands to the output
            stream; guard = html_ok holds; parse = the model reader applied to the units: "same" when it returns norm of
@@ -44,18 +44,25 @@ let () =
   let ic = if Array.length Sys.argv > 1 then open_in Sys.argv.(1) else stdin in
   iter_lines ic (fun line ->
     match split_ws line with
-    | "H" :: id :: enc :: ind :: esc :: ometa :: dsys :: dpub :: rest ->
+    | (("H" | "HN") as mode) :: id :: enc :: ind :: esc :: ometa :: dsys :: dpub :: rest ->
         (try
           if int_of_string ind >= 0 then failwith "indent";
           let c = { maxc = n_of_int (maxc_of enc); esc_urls = (esc = "1"); omit_meta = (ometa = "1"); enc_name = ascii enc;
                     dt_sys = opt dsys; dt_pub = opt dpub } in
           let doc = forest rest in
-          (match serialize_html c doc with
-           | Some l ->
+          let res = (mode = "HN") in
+          (* the model with the scratch string and the namespace bookkeeping; H = no prefix resolver, HN = resolver set *)
+          (match serialize_html_b push_has_namespace_clears_buffer res c doc with
+           | Some (l, buf) ->
+               let plain = List.for_all no_decls doc in
+               let g = html_ok c doc && plain in
                let p = (match parse_html l with
                         | Some f -> if f = List.map (norm c) doc then "same" else "diff"
                         | None -> "none") in
-               Printf.printf "%s ok %s %s %s\n" id (token_of_u16 l) (if html_ok c doc then "guard" else "noguard") p
+               (* without namespace declarations the buffer-free model of the theorems must give the same units *)
+               let eq = (not plain) || (serialize_html c doc = Some l) in
+               Printf.printf "%s ok %s %s %s%s%s\n" id (token_of_u16 l) (if g then "guard" else "noguard") p
+                 (if buf = [] then "" else "+dirty") (if eq then "" else "+noteq")
            | None -> Printf.printf "%s err\n" id)
         with Failure m -> Printf.printf "%s badscript\n" id)
     | _ -> ())
